@@ -90,12 +90,12 @@ fn prepare(auth: bool) -> Result<(Srv, World), String> {
     let ts = World::default_ts(0);
     srv.call(a.as_deref(), "brc20_initialise", json!({"genesis_hash": zero32(), "genesis_timestamp": ts, "genesis_height": 0}));
     let (t1, h1, _) = (World::default_ts(1), format!("0x{:0>64}", "b00000000001"), ());
-    let d = tx_call_with(&crate::props::common::deploy_s(), 0, t1, &h1, "i1e0", &h32(0x77));
+    let d = tx_call_with(&crate::props::common::deploy_s(), 0, t1, &h1, &crate::world::s_insc(), &h32(0x77));
     let r = srv.call(a.as_deref(), &d.method, d.params.clone());
     if r.get("result").is_none() {
         return Err(format!("state preparation failed: {}", r));
     }
-    srv.call(a.as_deref(), "brc20_deposit", json!({"to_pkscript": pkscript(0), "ticker": "ordi", "amount": "0x9", "timestamp": t1, "hash": h1, "tx_idx": 1, "inscription_id": "i2e0"}));
+    srv.call(a.as_deref(), "brc20_deposit", json!({"to_pkscript": pkscript(0), "ticker": "ordi", "amount": "0x9", "timestamp": t1, "hash": h1, "tx_idx": 1, "inscription_id": crate::world::insc_id(2, 0)}));
     srv.call(a.as_deref(), "brc20_finaliseBlock", json!({"timestamp": t1, "hash": h1, "block_tx_count": 2}));
     srv.call(a.as_deref(), "brc20_commitToDatabase", json!([]));
     // the automaton mirror, only used to resolve next-block parameters of the default requests
@@ -172,7 +172,7 @@ pub fn run(tier: &str, seed: u64) -> i32 {
             None => unknown_names.push(m.clone()),
         }
     }
-    let insc_ids: Vec<String> = vec!["i1e0".into(), "i2e0".into(), "req-deploy".into(), "req-call".into(), "req-call2".into(), "req-t0".into(), "req-t1".into(), "req-dep".into(), "req-wd".into()];
+    let insc_ids: Vec<String> = vec![crate::world::s_insc(), crate::world::insc_id(2, 0), "req-deploy".into(), "req-call".into(), "req-call2".into(), "req-t0".into(), "req-t1".into(), "req-dep".into(), "req-wd".into()];
     let read = Req { method: "eth_blockNumber".into(), label: "".into(), params: json!([]) };
     let baseline = srv.digest(&insc_ids);
     let mut evals = 0u64;
